@@ -219,6 +219,19 @@ def random_svd(ctx, idx, rng):
         lay = 'aspect-one-or-two-sectors'
         nsec = int(rng.integers(1, 3))
         q0 = np.sort(rng.integers(0, nsec, size=m)); q1 = np.sort(rng.integers(0, nsec, size=n))
+    if idx % 10 == 3:
+        # REGULAR sector layout: 4..7 shared sectors that all have the same number of rows and the same number of columns and cover every row, plus one to
+        # three column labels WITHOUT partner rows placed between / below / above the shared labels (anything that cuts equal-shape blocks from a regular grid)
+        ksec = int(rng.integers(4, 8))
+        r_, c_ = int(rng.integers(1, 5)), int(rng.integers(1, 5))
+        shared = 2 * np.arange(ksec) - int(rng.integers(0, 4))
+        q0 = np.repeat(shared, r_)
+        extra = rng.choice(np.concatenate([shared[:-1] + 1, [shared[0] - 3, shared[-1] + 5]]), size=int(rng.integers(1, 4)))
+        q1 = np.sort(np.concatenate([np.repeat(shared, c_), np.repeat(extra, int(rng.integers(1, 4)))]))
+        if rng.random() < 0.5:
+            q0 = q0[rng.permutation(len(q0))]; q1 = q1[rng.permutation(len(q1))]
+        m, n = len(q0), len(q1)
+        lay = 'equal-shape-sectors+unshared-columns'
     kind = str(rng.choice(['decaying', 'flat', 'staircase', 'degenerate', 'near-degenerate', 'weak-tail', 'deficient', 'random', 'zerocols', 'binary', 'dupcols', 'nearstruct', 'nearstruct']))
     if aspect:
         kind = str(rng.choice(['weak-tail', 'weak-tail', 'decaying', 'near-degenerate', 'random']))
